@@ -70,6 +70,10 @@ CLAIMED = {
         text="Lean theorems over all histories of forward / freeze / optimizer step / copy events: the quantized weight used by every forward is the one derived from the current float version, freezing does not change it and is idempotent, a frozen weight ignores later events; storage formula of frozen weights from the packing density and grouping theorems. "
              "Real models under random histories: outputs bit-identical across freeze / refreeze / to(cpu) / deepcopy, non-weight state untouched, frozen payload and scale counts equal to the formula.",
         design="6/C09", technique="Lean 4 proof over a weight state machine (induction on histories) + torch-vs-torch bit equality on real histories"),
+    "C10": dict(
+        text="Lean theorems: Python str / literal_eval round trip for every int, None, list and tuple of ints (the metadata strings), flatten→unflatten identity for QBytes, Packed and QBits serial forms under any prefix, leaf types (only tensors and strings), module-level save→load identity including the choice of the weight class from weight_qtype. "
+             "Real serializers (pickle, weights_only, safetensors) on real models: key sets and meta strings vs the model, every leaf bit for bit, qtypes, outputs bit-identical on same/default/requantize targets, re-saved dict equal.",
+        design="6/C10", technique="Lean 4 proof of print/parse and flatten/unflatten round trips + differential correspondence with real serializers"),
 }
 
 NOT_YET = "check not yet built in this round (build in progress; see DESIGN.md build order)"
